@@ -152,51 +152,21 @@ theorem kind_all {P : Kind → Prop} (k : Kind)
   rcases k with ⟨mem, ⟨cc, mc, ca, ma, dt⟩⟩
   exact h ..
 
-abbrev XOptP (mv : Bool) (k : Kind) : Prop :=
-  ∀ (trk : Nat → Bool) (nalt : Nat) (x0 x1 : Slot) (c : Cnt) (a b : Nat) (t : Bool),
-    a < nalt → b < nalt → vok trk x0 a → vok trk x1 b → c.vc + c.cc + c.mc = c.d + (lv x0 + lv x1) →
-    ∀ v : Nat, 1 < nalt →
+/-- `optional<T> = t` / `= move(t)`: the converting assignment with alternative 1 selected (assign through when engaged,
+    else emplace); the operand is an object of the caller, so of the trait bits only the declared members matter -/
+theorem x_optAssign (k : Kind) (mv : Bool) (trk : Nat → Bool) (nalt : Nat) (x0 x1 : Slot) (c : Cnt) (a b : Nat) (t : Bool)
+    (ha : a < nalt) (hb : b < nalt) (hA : vok trk x0 a) (hB : vok trk x1 b)
+    (hbal : c.vc + c.cc + c.mc = c.d + (lv x0 + lv x1))
+    (v : Nat) (hj : 1 < nalt) :
     ∃ s', St.upd ⟨⟨[x0, x1, .dead, .dead, .dead, .dead], c⟩, a, b⟩ t (optAssignValue k trk ⟨[x0, x1, .dead, .dead, .dead, .dead], c⟩ (baseOf 1 t) (if t then b else a) (tvOf 1)
-        (if mv then .move (.ext v) else .copy (.ext v))) = .ok s' ∧ VarInv trk nalt s'
-
-set_option hygiene false in
-local macro "x_opt_tac" : tactic => `(tactic|
-  (intro cc mc ca ma dt trk nalt x0 x1 c a b t ha hb hA hB hbal v hj
-   by_cases ha1 : a = 1 <;> by_cases hb1 : b = 1 <;>
-   rcases vok_cases hA with ⟨ht0, v0, rfl⟩ | ⟨ht0, rfl⟩ <;>
-   rcases vok_cases hB with ⟨ht1, v1, rfl⟩ | ⟨ht1, rfl⟩ <;>
-   cases htj : trk 1 <;> (try rw [ha1] at ht0) <;> (try rw [hb1] at ht1) <;> (try exact absurd (ht0.symm.trans ht1) (by decide)) <;>
-   (try exact absurd (ht0.symm.trans htj) (by decide)) <;> (try exact absurd (ht1.symm.trans htj) (by decide)) <;> cases t <;>
-   cases mc <;> cases ma <;> cases dt <;>
-   simp only [lv_live, lv_dead] at hbal <;> vf_simp [ht0, ht1, htj, ha1, hb1] <;> omega))
-
-set_option hygiene false in
-local macro "x_opt_tac_co" : tactic => `(tactic|
-  (intro cc mc ca ma dt trk nalt x0 x1 c a b t ha hb hA hB hbal v hj
-   by_cases ha1 : a = 1 <;> by_cases hb1 : b = 1 <;>
-   rcases vok_cases hA with ⟨ht0, v0, rfl⟩ | ⟨ht0, rfl⟩ <;>
-   rcases vok_cases hB with ⟨ht1, v1, rfl⟩ | ⟨ht1, rfl⟩ <;>
-   cases htj : trk 1 <;> (try rw [ha1] at ht0) <;> (try rw [hb1] at ht1) <;> (try exact absurd (ht0.symm.trans ht1) (by decide)) <;>
-   (try exact absurd (ht0.symm.trans htj) (by decide)) <;> (try exact absurd (ht1.symm.trans htj) (by decide)) <;> cases t <;>
-   cases cc <;> cases ca <;> cases dt <;>
-   simp only [lv_live, lv_dead] at hbal <;> vf_simp [ht0, ht1, htj, ha1, hb1] <;> omega))
-
-theorem x_opt_cm_c : ∀ cc mc ca ma dt, XOptP false ⟨.cm, ⟨cc, mc, ca, ma, dt⟩⟩ := by x_opt_tac
-theorem x_opt_cm_m : ∀ cc mc ca ma dt, XOptP true ⟨.cm, ⟨cc, mc, ca, ma, dt⟩⟩ := by x_opt_tac
-theorem x_opt_mo_c : ∀ cc mc ca ma dt, XOptP false ⟨.mo, ⟨cc, mc, ca, ma, dt⟩⟩ := by x_opt_tac
-theorem x_opt_mo_m : ∀ cc mc ca ma dt, XOptP true ⟨.mo, ⟨cc, mc, ca, ma, dt⟩⟩ := by x_opt_tac
-theorem x_opt_co_c : ∀ cc mc ca ma dt, XOptP false ⟨.co, ⟨cc, mc, ca, ma, dt⟩⟩ := by x_opt_tac_co
-theorem x_opt_co_m : ∀ cc mc ca ma dt, XOptP true ⟨.co, ⟨cc, mc, ca, ma, dt⟩⟩ := by x_opt_tac_co
-
-theorem x_optAssign (k : Kind) (mv : Bool) : XOptP mv k :=
-  kind_all (P := XOptP mv) k fun mem => by
-    cases mem <;> cases mv
-    · exact x_opt_cm_c
-    · exact x_opt_cm_m
-    · exact x_opt_mo_c
-    · exact x_opt_mo_m
-    · exact x_opt_co_c
-    · exact x_opt_co_m
+        (if mv then .move (.ext v) else .copy (.ext v))) = .ok s' ∧ VarInv trk nalt s' := by
+  by_cases ha1 : a = 1 <;> by_cases hb1 : b = 1 <;>
+  rcases vok_cases hA with ⟨ht0, v0, rfl⟩ | ⟨ht0, rfl⟩ <;>
+  rcases vok_cases hB with ⟨ht1, v1, rfl⟩ | ⟨ht1, rfl⟩ <;>
+  cases htj : trk 1 <;> (try rw [ha1] at ht0) <;> (try rw [hb1] at ht1) <;> (try exact absurd (ht0.symm.trans ht1) (by decide)) <;>
+  (try exact absurd (ht0.symm.trans htj) (by decide)) <;> (try exact absurd (ht1.symm.trans htj) (by decide)) <;> cases t <;>
+  cases mv <;>
+  rcases k with ⟨mem, tr⟩ <;> cases mem <;> simp only [lv_live, lv_dead] at hbal <;> vf_simp [ht0, ht1, htj, ha1, hb1] <;> omega
 
 theorem x_ctor (k : Kind) (trk : Nat → Bool) (nalt : Nat) (x0 x1 : Slot) (c : Cnt) (a b : Nat) (t : Bool)
     (ha : a < nalt) (hb : b < nalt) (hA : vok trk x0 a) (hB : vok trk x1 b)
